@@ -420,6 +420,10 @@ pub struct Generator<'a> {
     /// Position ID associated with the first token in `input_ids`.
     input_offset: usize,
 
+    /// Number of tokens at the start of `input_ids` which have already been
+    /// added to `prev_tokens`.
+    input_ids_recorded: usize,
+
     /// Input node IDs
     input_ids_input: NodeId,
 
@@ -607,6 +611,7 @@ impl<'a> Generator<'a> {
             input_ids: vec![],
             input_ids_input,
             input_offset: 0,
+            input_ids_recorded: 0,
             logits_output,
             kv_cache,
             encoder_kv_cache,
@@ -659,6 +664,7 @@ impl<'a> Generator<'a> {
     /// [`append_prompt`](Self::append_prompt) instead.
     pub fn with_prompt(mut self, prompt: &[TokenId]) -> Self {
         self.input_ids = prompt.to_vec();
+        self.input_ids_recorded = 0;
         self
     }
 
@@ -680,6 +686,7 @@ impl<'a> Generator<'a> {
     /// been generated. In other words, it does not "rewind" the conversation.
     pub fn clear_prompt(&mut self) {
         self.input_ids.clear();
+        self.input_ids_recorded = 0;
     }
 
     /// Return the prompt that will be used for the next generation.
@@ -914,15 +921,18 @@ impl<'a> Generator<'a> {
             cache_entry.cache = Some(kv_cache);
         }
 
-        // Save prompt for use in logit filters.
-        if self.prev_tokens.is_empty() {
-            self.prev_tokens.extend(self.input_ids.iter());
-        }
+        // Save the tokens that were passed to the model for the first time
+        // (the prompt, or tokens added by `append_prompt`) for use in logit
+        // filters. Sampled tokens were saved when they were sampled.
+        self.prev_tokens
+            .extend(&self.input_ids[self.input_ids_recorded..]);
+        self.input_ids_recorded = self.input_ids.len();
 
         // Clear the prompt for the next generation.
         if !self.kv_cache.is_empty() {
             self.input_offset += self.input_ids.len();
             self.input_ids.clear();
+            self.input_ids_recorded = 0;
         }
 
         if generate_logits {
@@ -971,6 +981,7 @@ impl<'a> Generator<'a> {
         // Append token to prompt for next generation.
         self.prev_tokens.push(next_id);
         self.input_ids.push(next_id);
+        self.input_ids_recorded += 1;
 
         Ok(next_id)
     }
